@@ -42,6 +42,7 @@ def judge(ctx, kind, graph_seed, knobs, a_mode, b_mode, p_outside):
         A = Path("relative audio") / "A"       # relative directories are legitimate (lexical arithmetic only)
     if graph_seed % 3 == 1:
         B = Path("other rel") / "B dir"
+    graphs.make_link(A)
     obj, gen = graphs.make(kind, graph_seed, audio_root=A, p_outside=p_outside, **knobs)
     recs = _recordings(obj)
     if graph_seed % 7 == 2 and recs:
@@ -118,6 +119,38 @@ def judge(ctx, kind, graph_seed, knobs, a_mode, b_mode, p_outside):
                 ctx.violate("a_to_b", f"a_to_b:{kind}", observed=str(r.path), expected=str(PurePosixPath(str(b_arg)) / rel), spec=_spec)
         if orig is not None and a_arg is None and b_arg is None and PurePosixPath(str(r.path)) != PurePosixPath(str(orig.path)):
             ctx.violate("passthrough", f"passthrough:{kind}", observed=str(r.path), expected=str(orig.path), spec=_spec)
+    # ---- the same parsed document / the same collection converted again with OTHER directories: each conversion
+    # stands on its own (nothing the first one did to the document object or to the recordings may show)
+    if ctx.every(_spec, 2):
+        from soundevent.io import aoef as AOEF
+
+        try:
+            text = Path(path).read_text()
+            doc = AOEF.AOEFObject.model_validate_json(text)
+            C = Path("third place") / "C"
+            seq = [b_arg, C, None, str(B)][graph_seed % 2:][:3]
+            for k, d in enumerate(seq):
+                out = AOEF.to_soundevent(doc, audio_dir=d)
+                ctx.mon("document_reused_with_other_directory")
+                for u, r in _recordings(out).items():
+                    st = stored.get(u)
+                    if st is None:
+                        continue
+                    want = PurePosixPath(st) if d is None else PurePosixPath(str(d)) / st
+                    if PurePosixPath(str(r.path)) != want:
+                        ctx.violate("relocated", f"relocated:{kind}:same_document_converted_again", observed={"call": k, "audio_dir": str(d), "path": str(r.path)},
+                                    expected=str(want), spec=dict(_spec, directories=[str(x) for x in seq]))
+                        break
+            # and the collection itself, written again under no / another directory
+            d2 = AOEF.to_aeof(obj, audio_dir=None)
+            ctx.mon("collection_converted_again_without_directory")
+            got = {str(r.uuid): str(r.path) for r in (d2.data.recordings or [])}
+            for u, r in recs.items():
+                if u in got and PurePosixPath(got[u]) != PurePosixPath(str(r.path)):
+                    ctx.violate("passthrough", f"passthrough:{kind}:after_save_with_directory", observed=got[u], expected=str(r.path), spec=_spec)
+                    break
+        except Exception as e:
+            ctx.violate_exc("load_raises", f"reconversion_raises:{kind}:{type(e).__name__}", e, spec=_spec)
     _spec = None
 
 
@@ -127,7 +160,7 @@ def run(ctx):
     rng = ctx.rng
     ctx.rule = ("(collection type, graph, audio dir A as str / Path / trailing slash / None, load dir B same / other / None, recordings inside / outside A); "
                 "non-trivial = >= 2 recordings in different sub-directories; distinct = distinct case spec")
-    ctx.assumptions += ["lexical paths without '..' segments or symlinks", "a failed save must leave the target path absent (or byte-identical to a pre-existing file)"]
+    ctx.assumptions += ["paths are compared as spelled (lexically): a '..' hop below the audio directory and a symlinked sub-directory are part of the spelling", "a failed save must leave the target path absent (or byte-identical to a pre-existing file)"]
     ctx.must_monitors += ["paths_saved", "paths_loaded", "save_rejection"]
     ctx.must_reach += ["io/aoef/recording.py::RecordingAdapter.assemble_aoef", "io/aoef/recording.py::RecordingAdapter.assemble_soundevent"]
     n = ctx.scale(70, 250)
